@@ -4157,6 +4157,40 @@ func ruleEpochSplit(c *Ctx, r *Rep) {
 			return true
 		})
 	}
+	// the same split written in two statements (arrayToTime): where a function takes the fraction above math.Floor(v) of a
+	// value, it does not also take int(v) — the truncation toward zero — as the whole part
+	for _, fd := range c.Decls(p) {
+		fracOf := map[string]token.Pos{}
+		ast.Inspect(fd.Body, func(q ast.Node) bool {
+			b, ok := q.(*ast.BinaryExpr)
+			if !ok || b.Op != token.SUB {
+				return true
+			}
+			if fl, ok := unparen(b.Y).(*ast.CallExpr); ok && calleeName(info, fl) == "math.Floor" && len(fl.Args) == 1 && c.Src(fl.Args[0]) == c.Src(b.X) {
+				fracOf[c.Src(b.X)] = b.Pos()
+			}
+			return true
+		})
+		if len(fracOf) == 0 {
+			continue
+		}
+		ast.Inspect(fd.Body, func(q ast.Node) bool {
+			call, ok := q.(*ast.CallExpr)
+			if !ok || len(call.Args) != 1 {
+				return true
+			}
+			tv, ok := info.Types[call.Fun]
+			if !ok || !tv.IsType() || !isMachineInt(tv.Type) {
+				return true
+			}
+			if _, ok := fracOf[c.Src(call.Args[0])]; !ok {
+				return true
+			}
+			n++
+			r.Bad("split:"+declKey(fd)+":"+c.Src(call), call.Pos(), "%s takes `%s` (toward zero) as the whole part of a value whose fraction it takes above math.Floor: for a negative fractional value the two do not add up to the value (`[2024,0,1,0,0,-0.5] | mktime` gives …200.5, half a second after instead of before the minute)", declKey(fd), c.Src(call))
+			return true
+		})
+	}
 	if n == 0 {
 		r.Undecided("census", token.NoPos, "no time.Unix call that derives its nanoseconds with math.Floor found (epochToArray is expected)")
 	}
